@@ -824,6 +824,25 @@ func ruleANYPATH1(c *Ctx) {
 					nilOK = true
 				}
 			}
+			// X.IsNil() || <value points back to itself>: a self-pointing value has nothing to merge into
+			// (finding F14); every other disjunct must be such a test
+			if ds := disjuncts(cj); len(ds) > 1 {
+				sawNil, rest := false, true
+				for _, d := range ds {
+					if call, ok := ast.Unparen(d).(*ast.CallExpr); ok {
+						if sel, ok := ast.Unparen(call.Fun).(*ast.SelectorExpr); ok && sel.Sel.Name == "IsNil" {
+							sawNil = true
+							continue
+						}
+					}
+					if !isSelfPointerTest(p, f, d) {
+						rest = false
+					}
+				}
+				if sawNil && rest {
+					nilOK = true
+				}
+			}
 		}
 		var problems []string
 		if negFlags&wantFlags != wantFlags {
